@@ -24,6 +24,9 @@ pub fn strings() -> Vec<String> {
     mid[20] = b'K';
     let mut last = long.clone().into_bytes();
     last[39] = b'E';
+    let mut two = long.clone().into_bytes();
+    two[9] = b'z'; // greater than '9'
+    two[14] = b'0'; // smaller than 'e'
     vec![
         "".into(),
         "a".into(),
@@ -44,6 +47,11 @@ pub fn strings() -> Vec<String> {
         String::from_utf8(mid).unwrap(),
         String::from_utf8(last).unwrap(),
         long[..39].to_string(),
+        // two differences inside one 8-byte stretch that order opposite ways (a comparison taken a word at a time
+        // must still decide on the FIRST differing byte), in an 8-byte string and in the second stretch of a long one
+        "abcdefgh".into(),
+        "bacdefgh".into(),
+        String::from_utf8(two).unwrap(),
     ]
 }
 
@@ -382,7 +390,7 @@ impl Prop for C17 {
     fn rule(&self, tier: Tier) -> String {
         let n = strings().len();
         format!(
-            "all {n}x{n} ordered pairs over the structured string set (empty, prefix/extension pairs, first difference at first/middle/last byte of a 40-byte string, NUL byte, 2- and 3-byte UTF-8), each evaluating `..` and the six comparisons: \
+            "all {n}x{n} ordered pairs over the structured string set (empty, prefix/extension pairs, first difference at first/middle/last byte of a 40-byte string, two opposite differences within one 8-byte stretch, NUL byte, 2- and 3-byte UTF-8), each evaluating `..` and the six comparisons: \
              (a) in {} operand forms under every uniform budget in {:?}, each of the seven operations followed by a probe operation on other operands in 3 probe kinds (rotating operations, always a concatenation, always a comparison that is true), so state left behind by one string instruction shows in the next; (b) var∘var form under ALL embedder executions with <= 1 deviation for {} left operands; \
              (c) var∘var form with a collection cycle started at EVERY instruction boundary and completed after {:?} further steps (real collector via hooks, quarantine on). Oracle: Rust byte-wise concatenation and ordering.",
             tier.pick(3, FORMS.len()),
